@@ -36,7 +36,6 @@ class ChainFinder(object):
                 h = self.parent_lookup.get(h)
                 if h is None:
                     break
-                new_hashes.discard(h)
                 preceding_path = self.trees_from_bottom.get(h)
                 if preceding_path:
                     del self.trees_from_bottom[h]
